@@ -497,6 +497,66 @@ def r18h(F):
 	out.append(Result('18.h', ok, ('ok:' if ok else 'shape:') + 'declared-length-from-bit-length', 'encoded_int_be_base32_size = ceil((64 - leading_zeros) / 5): 0 for 0', len(lz) + len(dc), where=F.where(sz.name)))
 	return out
 
+def r18i(F):
+	"""the HMAC that ties a BOLT-12 object to its originator covers every record except the metadata itself and - only when the signing
+	key is derived from that metadata - the key: builder and verifier of offers exclude the issuer id under the same predicate
+	(otherwise a request built against a copy of the offer with another issuer id verifies)"""
+	O = 'lightning::offers::'
+	out = []
+	out += P1_who_may_call(F, '18.i', [O + 'signer::Metadata::derives_recipient_keys'], [O + 'offer::OfferBuilder::build_without_checks', O + 'offer::OfferContents::verify'], floor=2)
+	out += P1_who_may_call(F, '18.i', [O + 'signer::Metadata::derives_payer_keys'], [O + 'invoice::InvoiceContents::verify', O + 'invoice_request::InvoiceRequestBuilder::build_without_checks', O + 'refund::RefundBuilder::build'], floor=3)
+	# builder: the issuer id is cleared from the authenticated stream only when the key will be re-derived
+	bfn = O + 'offer::OfferBuilder::build_without_checks'
+	try:
+		fu = F.func(bfn)
+		ex = Expr(fu)
+		clears = set()
+		for bi, si in sites_field_write(fu, 'issuer_id'):
+			e = ex.of_rvalue(fu.blocks[bi]['s'][si][2])
+			if e[0] == 'agg' and e[2] == 'None':
+				clears.add(bi)
+		cb = sites_call(fu, [O + 'signer::Metadata::derives_recipient_keys'])
+		if not clears or not cb:
+			out.append(Result('18.i', False, 'anchor:builder-issuer-id', 'OfferBuilder::build_without_checks: clearing of issuer_id (%d) / derives_recipient_keys call (%d) not found' % (len(clears), len(cb)), where=F.where(bfn)))
+		else:
+			out += P4_guarded(F, '18.i', fu, clears, call_decisions(fu, cb, 'bool'), True, 'derives_recipient_keys() (issuer id left out of the HMAC only when it is re-derived)', key='builder-issuer-id-excluded-iff-derived')
+	except AnchorMissing as e:
+		out.append(Result('18.i', False, 'anchor:' + str(e)[:80], 'anchor missing: %s' % e))
+	# verifier: the record filter keeps the issuer id record unless the key is derived: one return value of the filter is !derives_recipient_keys()
+	vfn = O + 'offer::OfferContents::verify'
+	okv = False
+	rets = []
+	for n in F.family(vfn):
+		cu = F.func(n)
+		cex = Expr(cu)
+		for d in cu.defs.get(0, []):
+			if d[1] != 'T':
+				rets.append(expr_str(cex.of_rvalue(d[3])))
+	okv = any(re.search(r'^Not\(derives_recipient_keys\(', x) for x in rets)
+	out.append(Result('18.i', okv, ('ok:' if okv else 'filter:') + 'verifier-issuer-id-kept-unless-derived', 'OfferContents::verify: the TLV record filter returns `!metadata.derives_recipient_keys()` for the issuer id record: %s' % okv, len(rets), where=None if okv else F.where(F.fn(vfn))))
+	return out
+
+def r18j(F):
+	"""parsing an unsigned BOLT-12 invoice / invoice request back from bytes (the remote-signer flow): the tagged hash that gets signed is
+	taken over ALL bytes, i.e. before the experimental records are split off into their own buffer"""
+	out = []
+	for fn in ('<lightning::offers::invoice::UnsignedBolt12Invoice as core::convert::TryFrom>::try_from', '<lightning::offers::invoice_request::UnsignedInvoiceRequest as core::convert::TryFrom>::try_from'):
+		short = fn.split(' as ')[0].rsplit('::', 1)[-1]
+		try:
+			fu = F.func(fn)
+		except AnchorMissing as e:
+			out.append(Result('18.j', False, 'anchor:' + short, 'anchor missing: %s' % e))
+			continue
+		hb = sites_call(fu, ['lightning::offers::merkle::TaggedHash::from_valid_tlv_stream_bytes'])
+		sb = sites_call(fu, ['alloc::vec::Vec::split_off'])
+		if not hb or not sb:
+			out.append(Result('18.j', False, 'anchor:hash-or-split@' + short, '%s::try_from: expected a TaggedHash::from_valid_tlv_stream_bytes call and a split_off of the experimental bytes, found %d / %d' % (short, len(hb), len(sb)), where=F.where(fn)))
+			continue
+		p = fu.path([x for b in sb for x in fu.succ(b)], hb)
+		ok = p is None
+		out.append(Result('18.j', ok, ('ok:' if ok else 'order:') + 'hash-before-split@' + short, '%s::try_from: the tagged hash is computed %s the experimental records are split off the byte buffer' % (short, 'before' if ok else 'AFTER (it no longer covers them: the signature made over it is rejected by every verifier)'), len(hb) + len(sb), where=None if ok else F.where(fn, fu.line_of(hb[0]))))
+	return out
+
 RULES = [
 	('18.h', 'BOLT-11 integers: a symbol is emitted only for a non-zero remainder (zero is empty), matching the declared field length', r18h),
 	('18.g', 'BOLT-11 expiry and timestamp hold whole seconds only: single constructor, built with Duration::from_secs', r18g),
@@ -506,4 +566,7 @@ RULES = [
 	('18.d', 'BOLT-12 TLV types lie in their stream ranges; ranges disjoint', r18d),
 	('18.f', 'signature TLVs are excluded from the signed merkle tree', r18f),
 	('18.q', 'no call hands a value named like one parameter of the callee to a different parameter (swapped type-compatible arguments; rules/provenance.py)', lambda F: provenance.swaps_for_property(F, 'C18', '18.q')),
+	('18.i', 'BOLT-12 metadata HMAC: builder and verifier leave the signing key out under the same predicate only', r18i),
+	('18.j', 'unsigned BOLT-12 objects parsed from bytes: the tagged hash covers the experimental records (hash before split)', r18j),
+	('18.w', 'no length / count is added to or multiplied in an 8/16-bit type and widened afterwards (wrap-around at the top of the range; rules/provenance.py)', lambda F: provenance.narrow_for_property(F, 'C18', '18.w')),
 ]
